@@ -146,7 +146,7 @@ def par_jobs(check, part, cfg):
 
 PAR_RULE = ("a run = one seeded LRA history (NET generator, LRA profile, extra relations for dense tableaux) executed by the PARALLELIZE build under one schedule: "
             "the scheduler owns every pthread synchronisation point (mutex lock/unlock, condition wait/signal/broadcast, thread create/join) and decides who runs; "
-            "policy canonical / uniformly random / sticky random, pool sizes 1-4 (8 thorough), faults: spurious wake-ups, late worker start, lost races for a mutex; "
+            "policy canonical / uniformly random / sticky random, pool sizes 1-4 (8 thorough), faults: spurious wake-ups, late worker start, lost races for a mutex; two schedules per history (six thorough) run TWO caller threads at once, each with a network and pool of its own, on the same history; "
             "reference = observation log of the same history on the PARALLELIZE=OFF build; non-trivial = at least two worker threads executed pivot tasks and at least two were busy at the same time; "
             "distinct = distinct (history, schedule decisions) hash")
 PROPS["C20"] = {"engine": "par", "configs": {"quick": ["par"], "thorough": ["par"]}, "budget": {"quick": 45, "thorough": 900}, "jobs": par_jobs, "minimise": True, "reference_config": "seq",
